@@ -193,13 +193,24 @@ class LInt:
 
     __int__ = __index__
 
+    def _tag(self):
+        # concrete terms print as the number; symbolic ones as a tag that identifies the TERM (recorders map cells back to terms)
+        t = z3.simplify(self.t)
+        if z3.is_int_value(t):
+            return builtins.str(t.as_long())
+        TAGS[self.t.get_id()] = self.t
+        return f"<lint#{self.t.get_id()}>"
+
     def __format__(self, spec):
-        return "<lint>"
+        return self._tag()
 
     def __repr__(self):
-        return "<lint>"
+        return self._tag()
 
     __str__ = __repr__
+
+
+TAGS = {}
 
 
 class ViewBytes:
